@@ -19,10 +19,13 @@ theorem trans_shouldCheck (index arch : Text) (opts : Opts) :
   · simp only [hi, Bool.false_eq_true, ↓reduceIte]
     generalize opts.noSignatureIndexes = l
     induction l with
-    | nil => simp
+    | nil => simp [hi]
     | cons x xs ih =>
       simp only [List.findSome?_cons, List.any_cons]
-      by_cases hx : indexURL x arch = index <;> simp_all
+      by_cases hx : indexURL x arch = index
+      · simp_all
+      · have hx2 : ¬ index = indexURL x arch := fun e => hx e.symm
+        simp_all
 
 -- non-trivial values: an exempted repository is not checked, its neighbour is
 example :
